@@ -20,6 +20,7 @@ func TestVerifReplay(t *testing.T) {
 		"Verif_C14_VisitedGuard":     Verif_C14_VisitedGuard,
 		"Verif_C13_Tables":           Verif_C13_Tables,
 		"Verif_C13_Imports":          Verif_C13_Imports,
+		"Verif_C13_ImportsChain":     Verif_C13_ImportsChain,
 		"Verif_C13_TablesGeneric":    Verif_C13_TablesGeneric,
 		"Verif_C13_TablesMany":       Verif_C13_TablesMany,
 		"Verif_C12_Attribution":      Verif_C12_Attribution,
